@@ -7,8 +7,11 @@ Part 2: an executable abstract machine.  A *task* (one program in one simulation
         operations run on
           * a private state (fresh for every task: the deep copy of the infrastructure, the program
             object, its output frames) — an accumulator and the list of emitted outputs,
-          * the process-wide state `Env`: the module/class-level containers `shared` (σ) and the states of
-            the random generators (ρ: numpy global, stdlib `random`, any other generator).
+          * the process-wide state `Env`: the module/class-level containers `shared` (σ), the in-memory
+            infrastructure objects `objs` that all programs of a simulation are handed in sequential mode, and
+            the states of the random generators (ρ: numpy global, stdlib `random`, any other generator).
+            Whether a task's `touch`/`look` act on a private deep copy of `objs` or on the shared graph is the
+            extracted fact `Tables.privateCopy` (simulate() wiring + copy hooks of every class).
         A *worker* (a process: the only one in sequential/debug mode, a pool member otherwise) runs its
         tasks one after the other on ONE `Env`; a *schedule* is a list of workers, each with its own
         initial generator states (fork / OS entropy) and the freshly imported module state `sh0`.
@@ -53,11 +56,53 @@ structure Mutation where
   op : String
   deriving DecidableEq, Repr
 
+/-- a pickling / copying hook of a class (`copy.deepcopy` goes through `__deepcopy__` or `__reduce_ex__`);
+`deep` = the extractor's syntactic verdict that the hook keeps deep-copy semantics (see effects_more.py) -/
+structure CopyHook where
+  file : String
+  line : Nat
+  cls : String
+  hook : String
+  deep : Bool
+  why : String
+  deriving DecidableEq, Repr
+
+inductive NondetKind where
+  | setIteration | dirListing | wallClock | identity
+  deriving DecidableEq, Repr
+
+/-- a non-RNG source of nondeterminism reachable from a run -/
+structure NondetSite where
+  file : String
+  line : Nat
+  func : String
+  kind : NondetKind
+  call : String
+  deriving DecidableEq, Repr
+
 structure Tables where
   rngSites : List RngSite
   seedPoints : List SeedPoint
   sharedMutations : List Mutation
+  /-- RNG sites lexically reachable from what a task runs before its first re-seed -/
+  prologueRngSites : List RngSite
+  copyHooks : List CopyHook
+  simulateDeepCopies : Bool
+  simulateUsesOnlyCopy : Bool
+  nondetSites : List NondetSite
   deriving Repr
+
+/-- every task works on a private deep copy of the infrastructure object it is handed: `simulate()` deep-copies
+its argument and uses only the copy, and no class overrides deep-copy semantics -/
+def Tables.privateCopy (T : Tables) : Bool :=
+  T.simulateDeepCopies && T.simulateUsesOnlyCopy && T.copyHooks.all (fun h => h.deep)
+
+/-- table obligation: nothing random is reachable before the first re-seed of a task -/
+def Tables.prologueClean (T : Tables) : Prop := T.prologueRngSites = []
+
+/-- table obligation: every non-RNG nondeterminism source is on the reviewed list (file, function, kind) -/
+def Tables.nondetReviewed (T : Tables) (reviewed : List (String × String × NondetKind)) : Prop :=
+  ∀ s ∈ T.nondetSites, (s.file, s.func, s.kind) ∈ reviewed
 
 /-- the day loop of `LdarSim.run_simulation` starts by re-seeding the numpy global generator -/
 def Tables.dayLoopReseeds (T : Tables) : Bool :=
@@ -77,6 +122,9 @@ def Tables.consumersReseeded (T : Tables) : Prop :=
 instance (T : Tables) : Decidable T.rngAllSeeded := by unfold Tables.rngAllSeeded; infer_instance
 instance (T : Tables) : Decidable T.noSharedMutation := by unfold Tables.noSharedMutation; infer_instance
 instance (T : Tables) : Decidable T.consumersReseeded := by unfold Tables.consumersReseeded; infer_instance
+instance (T : Tables) : Decidable T.prologueClean := by unfold Tables.prologueClean; infer_instance
+instance (T : Tables) (r : List (String × String × NondetKind)) : Decidable (T.nondetReviewed r) := by
+  unfold Tables.nondetReviewed; infer_instance
 
 /-! ## Part 2 — the abstract machine -/
 
@@ -88,6 +136,8 @@ inductive Op where
   | write (c : Nat) (v : Nat) -- shared container c is appended to / updated
   | comp (k : Nat)            -- deterministic private computation
   | emit                      -- an output (row, file) is produced from the private state
+  | touch (o : Nat) (v : Nat) -- object o of "the task's" infrastructure is mutated (a sticky roll is stored, a leak tagged)
+  | look (o : Nat)            -- the private state depends on the state of object o of the task's infrastructure
   deriving DecidableEq, Repr
 
 def Op.isSeed : Op → Bool
@@ -101,6 +151,9 @@ def Op.isDraw : Op → Bool
 /-- process-wide state -/
 structure Env where
   shared : Nat → List Nat
+  /-- the in-memory infrastructure objects, per simulation: in sequential mode every program of a simulation is
+  handed the SAME object graph (`_setup_programs` builds it once per simulation) -/
+  objs : Nat → Nat → List Nat
   np : Nat
   std : Nat
   oth : Nat
@@ -120,23 +173,30 @@ def Env.setRng (e : Env) (g : Gen) (s : Nat) : Env :=
 structure Priv where
   acc : Nat
   out : List Nat
-  deriving DecidableEq, Repr
+  /-- the task's own copy of the infrastructure objects (used when the task deep-copies) -/
+  objs : Nat → List Nat
 
 def nextRng (s : Nat) : Nat := (s * 1103515245 + 12345) % 2147483648
 def mix (a x : Nat) : Nat := (a * 31 + x + 7) % 1000003
 def digest (l : List Nat) : Nat := l.foldl mix l.length
 
-def step (seedOf : Nat → Nat) (p : Priv) (e : Env) : Op → Priv × Env
+/-- `copies` = the task works on a deep copy of the infrastructure (then `touch`/`look` stay private);
+otherwise they act on the object graph shared by the tasks of simulation `sim` in this process -/
+def step (copies : Bool) (sim : Nat) (seedOf : Nat → Nat) (p : Priv) (e : Env) : Op → Priv × Env
   | .seed d => (p, { e with np := seedOf d })
   | .draw g => let s := nextRng (e.rng g); ({ p with acc := mix p.acc s }, e.setRng g s)
   | .read c => ({ p with acc := mix p.acc (digest (e.shared c)) }, e)
   | .write c v => (p, { e with shared := fun k => if k = c then e.shared k ++ [v] else e.shared k })
   | .comp k => ({ p with acc := mix p.acc k }, e)
   | .emit => ({ p with out := p.out ++ [p.acc] }, e)
+  | .touch o v =>
+    if copies then ({ p with objs := fun k => if k = o then p.objs k ++ [v] else p.objs k }, e)
+    else (p, { e with objs := fun s k => if s = sim ∧ k = o then e.objs s k ++ [v] else e.objs s k })
+  | .look o => ({ p with acc := mix p.acc (digest (if copies then p.objs o else e.objs sim o)) }, e)
 
-def exec (seedOf : Nat → Nat) : List Op → Priv → Env → Priv × Env
+def exec (copies : Bool) (sim : Nat) (seedOf : Nat → Nat) : List Op → Priv → Env → Priv × Env
   | [], p, e => (p, e)
-  | op :: r, p, e => exec seedOf r (step seedOf p e op).1 (step seedOf p e op).2
+  | op :: r, p, e => exec copies sim seedOf r (step copies sim seedOf p e op).1 (step copies sim seedOf p e op).2
 
 /-- a program: what runs before the day loop (building the program, its methods, sensors, crews, the
 output manager), the operations of each simulated day, and what runs after the loop (summaries) -/
@@ -160,20 +220,29 @@ def Prog.allOps (p : Prog) : List Op := p.prologue ++ p.body.flatten ++ p.epilog
 structure Folder where
   seed : Nat → Nat → Nat
   scenario : Nat → Nat
+  /-- the pickled infrastructure of each simulation (what `read_in_emissions` loads) -/
+  objects : Nat → Nat → List Nat
+
+/-- how the code base runs a task, as extracted: the day loop re-seeds first; the task deep-copies -/
+structure Mode where
+  reseed : Bool
+  copies : Bool
+  deriving DecidableEq, Repr
 
 structure Task where
   prog : Prog
   sim : Nat
   deriving DecidableEq, Repr
 
-def runTask (reseed : Bool) (F : Folder) (t : Task) (e : Env) : List Nat × Env :=
-  let r := exec (F.seed t.sim) (t.prog.ops reseed) { acc := F.scenario t.sim, out := [] } e
+def runTask (m : Mode) (F : Folder) (t : Task) (e : Env) : List Nat × Env :=
+  let r := exec m.copies t.sim (F.seed t.sim) (t.prog.ops m.reseed)
+    { acc := F.scenario t.sim, out := [], objs := e.objs t.sim } e
   (r.1.out, r.2)
 
 /-- a worker process runs its tasks one after the other on one process-wide state -/
-def runWorker (reseed : Bool) (F : Folder) : List Task → Env → List (List Nat)
+def runWorker (m : Mode) (F : Folder) : List Task → Env → List (List Nat)
   | [], _ => []
-  | t :: r, e => (runTask reseed F t e).1 :: runWorker reseed F r (runTask reseed F t e).2
+  | t :: r, e => (runTask m F t e).1 :: runWorker m F r (runTask m F t e).2
 
 structure Worker where
   np : Nat
@@ -182,20 +251,20 @@ structure Worker where
   tasks : List Task
   deriving Repr
 
-def Worker.env (sh0 : Nat → List Nat) (w : Worker) : Env :=
-  { shared := sh0, np := w.np, std := w.std, oth := w.oth }
+def Worker.env (F : Folder) (sh0 : Nat → List Nat) (w : Worker) : Env :=
+  { shared := sh0, objs := F.objects, np := w.np, std := w.std, oth := w.oth }
 
 /-- the outputs of a whole run, worker by worker, task by task -/
-def runSchedule (reseed : Bool) (F : Folder) (sh0 : Nat → List Nat) (ws : List Worker) : List (List (List Nat)) :=
-  ws.map (fun w => runWorker reseed F w.tasks (w.env sh0))
+def runSchedule (m : Mode) (F : Folder) (sh0 : Nat → List Nat) (ws : List Worker) : List (List (List Nat)) :=
+  ws.map (fun w => runWorker m F w.tasks (w.env F sh0))
 
 /-- every (task, output) pair of a whole run -/
-def results (reseed : Bool) (F : Folder) (sh0 : Nat → List Nat) (ws : List Worker) : List (Task × List Nat) :=
-  ws.flatMap (fun w => w.tasks.zip (runWorker reseed F w.tasks (w.env sh0)))
+def results (m : Mode) (F : Folder) (sh0 : Nat → List Nat) (ws : List Worker) : List (Task × List Nat) :=
+  ws.flatMap (fun w => w.tasks.zip (runWorker m F w.tasks (w.env F sh0)))
 
 /-- the task run alone in a freshly started process -/
-def alone (reseed : Bool) (F : Folder) (sh0 : Nat → List Nat) (t : Task) : List Nat :=
-  (runTask reseed F t { shared := sh0, np := 0, std := 0, oth := 0 }).1
+def alone (m : Mode) (F : Folder) (sh0 : Nat → List Nat) (t : Task) : List Nat :=
+  (runTask m F t { shared := sh0, objs := F.objects, np := 0, std := 0, oth := 0 }).1
 
 /-! ### effect discipline (decidable) -/
 
@@ -226,9 +295,17 @@ def conforms (T : Tables) (p : Prog) : Bool :=
     match o with
     | .draw g => T.rngSites.any (fun s => decide (s.gen = g))
     | .write _ _ => !T.sharedMutations.isEmpty
+    | _ => true) &&
+  -- what runs before the day loop may only draw at a site the extractor found reachable from there
+  p.prologue.all (fun o =>
+    match o with
+    | .draw g => T.prologueRngSites.any (fun s => decide (s.gen = g))
     | _ => true)
 
 /-- day-loop form: nothing is drawn before the first re-seed of the task -/
 def Prog.dayLoopForm (p : Prog) : Bool := noDraw p.prologue && (!p.body.isEmpty || noDraw p.epilogue)
+
+/-- the mode in which the code base, as extracted, runs its tasks -/
+def Tables.mode (T : Tables) : Mode := { reseed := T.dayLoopReseeds, copies := T.privateCopy }
 
 end LdarModel.Effects
